@@ -60,6 +60,9 @@ func (r *Rng) Float() float64 { return float64(r.U64()>>11) / float64(1<<53) }
 // Pick returns one of the ints.
 func (r *Rng) Pick(xs ...int) int { return xs[r.Intn(len(xs))] }
 
+// Pick64 returns one of the int64s.
+func (r *Rng) Pick64(xs ...int64) int64 { return xs[r.Intn(len(xs))] }
+
 // PickS returns one of the strings.
 func (r *Rng) PickS(xs ...string) string { return xs[r.Intn(len(xs))] }
 
